@@ -33,6 +33,12 @@ pub fn dispatch(op: &str, ty: &str, args: &[Arg]) -> Option<String> {
             match ty { "i32" => disp::<i32>(&sh, &es, prec, *alt == 1), "f64" => disp::<f64>(&sh, &es, prec, *alt == 1),
                        "str" => disp::<String>(&sh, &es, prec, *alt == 1), "bool" => disp::<bool>(&sh, &es, prec, *alt == 1), _ => None }
         }
+        ("display", [_, p, Arg::Z(alt), raw]) => {
+            // the implementation formats the raw values; the first argument holds the renderings the model nests
+            let (sh, es) = strs(raw)?;
+            let prec = match p { Arg::N => None, Arg::Z(z) => Some(*z as usize), _ => return Some("bad".into()) };
+            match ty { "f64" => disp::<f64>(&sh, &es, prec, *alt == 1), "f32" => disp::<f32>(&sh, &es, prec, *alt == 1), _ => None }
+        }
         ("tuple_text", [a]) => {
             let (_, es) = strs(a)?;
             let (text, back): (String, Vec<String>) = match es.len() {
